@@ -14,6 +14,7 @@ package db
 
 import (
 	"bytes"
+	"errors"
 	"fmt"
 	"runtime/debug"
 	"sort"
@@ -39,7 +40,16 @@ const c19Slots = 4
 var c19NV = 3
 
 func c19OpFlush() int { return c19Slots * (c19NV + 1) * 2 }
-func c19Ops() int     { return c19OpFlush() + 2 }
+func c19Ops() int     { return c19OpFlush() + 2 + c19Slots }
+
+// ops c19OpFlush()+2+(k-1), k=1..4: Flush(true) while the k-th write to the
+// underlying store fails once (an event only if that write really happens).
+var c19MaxFaults = 1
+
+// quick tier: fault histories use freshly obtained bucket handles only
+var c19FaultFreshOnly = false
+
+var c19ErrInjected = errors.New("injected I/O error of the underlying store")
 
 // roots: how the underlying store is populated before the layer is created.
 var c19Roots = [][]struct {
@@ -61,6 +71,9 @@ func c19OpName(op int) string {
 	if op == c19OpFlush()+1 {
 		return "Flush(false)"
 	}
+	if op > c19OpFlush()+1 {
+		return fmt.Sprintf("Flush(true) while underlying write #%d fails", op-c19OpFlush()-1)
+	}
 	mode := []string{"first-handle", "fresh-handle"}[op%2]
 	act := (op / 2) % (c19NV + 1)
 	slot := op / 2 / (c19NV + 1)
@@ -75,6 +88,19 @@ func c19OpName(op int) string {
 type c19RecDB struct {
 	inner  Database
 	writes []string
+	failIn int // countdown: the failIn-th Set/Delete from now fails (armed only during one Flush)
+	fired  bool
+}
+
+func (d *c19RecDB) fault() bool {
+	if d.failIn > 0 {
+		d.failIn--
+		if d.failIn == 0 {
+			d.fired = true
+			return true
+		}
+	}
+	return false
 }
 
 type c19RecBucket struct {
@@ -95,10 +121,16 @@ func (d *c19RecDB) Close() error { return nil }
 func (b *c19RecBucket) Get(k []byte) ([]byte, error) { return b.inner.Get(k) }
 func (b *c19RecBucket) Has(k []byte) (bool, error)   { return b.inner.Has(k) }
 func (b *c19RecBucket) Set(k, v []byte) error {
+	if b.db.fault() {
+		return c19ErrInjected
+	}
 	b.db.writes = append(b.db.writes, "S "+string(b.id)+"/"+string(k)+"="+strconv.Quote(string(v)))
 	return b.inner.Set(k, v)
 }
 func (b *c19RecBucket) Delete(k []byte) error {
+	if b.db.fault() {
+		return c19ErrInjected
+	}
 	b.db.writes = append(b.db.writes, "D "+string(b.id)+"/"+string(k))
 	return b.inner.Delete(k)
 }
@@ -117,6 +149,9 @@ type c19Model struct {
 	order     []int // overlay slots in order of last modification
 	committed bool
 	discarded bool // at least one Flush(false) happened
+	failed    bool // the last Flush(true) failed midway (injected fault) and was not repeated/discarded yet
+	faults    int
+	since     int // operations executed after the injected fault
 }
 
 func (m *c19Model) view(s int) c19Cell {
@@ -152,6 +187,8 @@ func (m *c19Model) phase() string {
 	switch {
 	case m.committed:
 		return "committed"
+	case m.failed:
+		return "after-failed-commit"
 	case m.discarded:
 		return "after-discard"
 	default:
@@ -182,6 +219,10 @@ func (m *c19Model) key() string {
 	if m.discarded {
 		sb.WriteString("|D")
 	}
+	if m.failed {
+		sb.WriteString("|X")
+	}
+	sb.WriteString("|f" + strconv.Itoa(m.faults) + "+" + strconv.Itoa(m.since))
 	return sb.String()
 }
 
@@ -211,6 +252,7 @@ func (c c19Case) String() string {
 
 type c19Counters struct {
 	commitsNonEmpty, discardsNonEmpty, tombHides, rewritesMoved, postCommitWrites, overlayHits int64
+	failedCommits, retriedCommits, discardsAfterFail, partialCommits                           int64
 }
 
 type c19Ctx struct {
@@ -299,10 +341,61 @@ func c19SameMultiset(a, b []string) bool {
 	return true
 }
 
-func (in *c19Inst) apply(cx *c19Ctx, op int, cs c19Case) {
+func (in *c19Inst) apply(cx *c19Ctx, op int, cs c19Case) bool {
+	// The fault dimension is bounded so that the state space stays finite and small:
+	// the injected error hits the FIRST flush of a history (no commit / discard before;
+	// quick tier: only handles obtained freshly so far), and the history continues after
+	// it with one arbitrary operation, optionally followed by Flush(true) or Flush(false).
+	if in.m.faults > 0 {
+		isFlush := op == c19OpFlush() || op == c19OpFlush()+1
+		switch {
+		case in.m.since >= 2, op > c19OpFlush()+1:
+			return false
+		case in.m.since == 1 && !isFlush:
+			return false
+		case c19FaultFreshOnly && !isFlush && op%2 == 0:
+			return false
+		}
+		in.m.since++
+	}
 	ph := in.m.phase()
 	in.rec.writes = nil
 	var expect []string
+	if op > c19OpFlush()+1 {
+		// Flush(true) whose k-th underlying write fails
+		k := op - c19OpFlush() - 1
+		if in.m.committed || in.m.discarded || len(in.m.order) < k || in.m.faults >= c19MaxFaults {
+			return false // the failing write does not happen / not the first flush
+		}
+		if c19FaultFreshOnly && (in.first[0] != nil || in.first[1] != nil) {
+			return false
+		}
+		for _, s := range in.m.order[:k-1] {
+			c := in.m.ov[s]
+			if c.present {
+				expect = append(expect, "S "+c19SlotName(s)+"="+strconv.Quote(c.val))
+			} else {
+				expect = append(expect, "D "+c19SlotName(s))
+			}
+			in.m.base[s] = c // what was written before the error stays in the store
+		}
+		in.m.faults++
+		in.m.failed = true
+		in.rec.failIn, in.rec.fired = k, false
+		err := in.ldb.Flush(true)
+		in.rec.failIn = 0
+		atomic.AddInt64(&cx.cnt.failedCommits, 1)
+		if k > 1 {
+			atomic.AddInt64(&cx.cnt.partialCommits, 1)
+		}
+		if err == nil {
+			cx.r.Violation("failed-commit-reports-success", fmt.Sprintf("%v: Flush(true) returned nil although underlying write #%d failed (fault fired=%v)", cs, k, in.rec.fired), cs)
+		}
+		if got := in.rec.writes; strings.Join(got, ";") != strings.Join(expect, ";") {
+			cx.r.Violation("failed-commit-base-writes/"+ph, fmt.Sprintf("%v: underlying writes before the error %v, model %v", cs, got, expect), cs)
+		}
+		return true
+	}
 	if op >= c19OpFlush() {
 		write := op == c19OpFlush()
 		if write && !in.m.committed {
@@ -321,6 +414,14 @@ func (in *c19Inst) apply(cx *c19Ctx, op int, cs c19Case) {
 		}
 		if !write && !in.m.committed && len(in.m.order) > 0 {
 			atomic.AddInt64(&cx.cnt.discardsNonEmpty, 1)
+		}
+		if in.m.failed && !in.m.committed {
+			if write {
+				atomic.AddInt64(&cx.cnt.retriedCommits, 1)
+			} else {
+				atomic.AddInt64(&cx.cnt.discardsAfterFail, 1)
+			}
+			in.m.failed = false
 		}
 		wasCommitted := in.m.committed
 		if !wasCommitted {
@@ -347,7 +448,7 @@ func (in *c19Inst) apply(cx *c19Ctx, op int, cs c19Case) {
 			cx.r.Violation("commit-write-order-not-last-modification/"+ph,
 				fmt.Sprintf("%v: underlying writes %v, model (order of last modification) %v", cs, got, expect), cs)
 		}
-		return
+		return true
 	}
 	mode, act, s := op%2, (op/2)%(c19NV+1), op/2/(c19NV+1)
 	b := s / 2
@@ -357,7 +458,7 @@ func (in *c19Inst) apply(cx *c19Ctx, op int, cs c19Case) {
 			h, err := in.ldb.GetBucket(c19Buckets[b])
 			if err != nil || h == nil {
 				cx.r.Violation("layer-GetBucket-error/"+ph, fmt.Sprintf("%v: err=%v", cs, err), cs)
-				return
+				return true
 			}
 			in.first[b] = h
 		}
@@ -366,7 +467,7 @@ func (in *c19Inst) apply(cx *c19Ctx, op int, cs c19Case) {
 		h, err := in.ldb.GetBucket(c19Buckets[b])
 		if err != nil || h == nil {
 			cx.r.Violation("layer-GetBucket-error/"+ph, fmt.Sprintf("%v: err=%v", cs, err), cs)
-			return
+			return true
 		}
 		bk = h
 	}
@@ -409,6 +510,7 @@ func (in *c19Inst) apply(cx *c19Ctx, op int, cs c19Case) {
 		}
 		cx.r.Violation(sig, fmt.Sprintf("%v: underlying writes %v, model %v", cs, in.rec.writes, expect), cs)
 	}
+	return true
 }
 
 // implKey renders the complete internal state of the real layerDB.
@@ -477,7 +579,9 @@ func c19Run(cx *c19Ctx, hist []byte) (string, bool) {
 		if i == nops-1 {
 			in.observe(cx, c19Case{cs.Root, c19NV, cs.Ops[:i]})
 		}
-		in.apply(cx, op, c19Case{cs.Root, c19NV, cs.Ops[:i+1]})
+		if !in.apply(cx, op, c19Case{cs.Root, c19NV, cs.Ops[:i+1]}) {
+			return "", false
+		}
 	}
 	in.observe(cx, cs)
 	return in.implKey() + "#" + in.m.key(), true
@@ -505,8 +609,9 @@ func TestVerifC19(t *testing.T) {
 		return
 	}
 	c19NV = r.Pick(2, 3)
-	depth := r.Pick(9, 9)
-	r.Rule(fmt.Sprintf("BFS over histories of <= %d operations on a real layerDB over a recording MapDB, from %d pre-populated stores; alphabet (%d): Set/Delete of 2 buckets x 2 keys x values %q through the first-obtained or a freshly obtained bucket handle, Flush(true), Flush(false); after every operation every (bucket,key) is read (Get,Has, twice) through both handles and directly from the store. Distinct non-trivial = distinct canonical state (full internal layerDB state + store contents + handle kinds + model state); the search runs until no new state appears (fixpoint) or the depth bound", depth, r.Pick(1, 4), c19Ops(), c19Vals[:c19NV]))
+	c19FaultFreshOnly = r.Quick()
+	depth := r.Pick(13, 13)
+	r.Rule(fmt.Sprintf("BFS over histories of <= %d operations on a real layerDB over a recording MapDB, from %d pre-populated stores; alphabet (%d): Set/Delete of 2 buckets x 2 keys x values %q through the first-obtained or a freshly obtained bucket handle, Flush(true), Flush(false); after every operation every (bucket,key) is read (Get,Has, twice) through both handles and directly from the store. Distinct non-trivial = distinct canonical state (full internal layerDB state + store contents + handle kinds + model state); the search runs until no new state appears (fixpoint) or the depth bound. Environment fault: additional operations 'Flush(true) while the k-th Set/Delete on the underlying store fails once' (k=1..4, an event only if that write really happens), for the FIRST flush of a history (quick: handles obtained freshly so far), followed by one arbitrary operation and optionally Flush(true)/Flush(false): the failed Flush must return the error, the store holds exactly the writes made before the error, the layered view is unchanged, a repeated Flush(true) returns nil and makes store == view, Flush(false) drops the overlay", depth, r.Pick(1, 4), c19Ops(), c19Vals[:c19NV]))
 	r.Assume("the underlying store is the real MapDB and never fails; nothing else writes to it while the layer is open",
 		"states are de-duplicated on a 128-bit hash of the canonical state string",
 		"order of replay on commit (order of last modification) is checked although the statement only implies it",
@@ -547,6 +652,13 @@ func TestVerifC19(t *testing.T) {
 	r.Transitions(st.Transitions)
 	r.Traces(st.Replays)
 	r.Set("depth_bound", depth)
+	r.Set("injected_faults_per_history", c19MaxFaults)
+	r.Set("commits_failed_by_an_injected_write_error", cnt.failedCommits)
+	r.Set("failed_commits_that_left_a_partial_prefix_in_the_store", cnt.partialCommits)
+	r.Set("commits_retried_after_a_failed_commit", cnt.retriedCommits)
+	r.Set("discards_after_a_failed_commit", cnt.discardsAfterFail)
+	r.Sanity(cnt.failedCommits > 0 && cnt.partialCommits > 0 && cnt.retriedCommits > 0 && cnt.discardsAfterFail > 0,
+		"vacuity(faults): failed=%d partial=%d retried=%d discarded=%d", cnt.failedCommits, cnt.partialCommits, cnt.retriedCommits, cnt.discardsAfterFail)
 	r.Set("depth_completed", st.DepthDone)
 	r.Set("new_states_per_depth", st.PerDepth)
 	r.Set("fixpoint", st.Fixpoint)
